@@ -28,7 +28,7 @@ Definition out_safety (r : safety_result) : bytes :=
   end.
 
 Definition out_region (p : rname * region) : bytes :=
-  rname_str (fst p) ++ [58] ++ out_N (r_off (snd p)) ++ [58] ++ out_N (r_len (snd p)) ++ [58] ++ out_N (blen (r_data (snd p))).
+  rname_str (fst p) ++ [58] ++ out_N (r_off (snd p)) ++ [58] ++ out_N (r_len (snd p)) ++ [58] ++ out_N (flen (r_data (snd p))).
 
 Definition record (e : option exn) (i : istate) : bytes :=
   (match e with Some x => exn_name x | None => [45] end) ++ [59]
@@ -44,7 +44,7 @@ Fixpoint sums (b : bytes) (i s1 s2 : N) : N * N :=
   match b with [] => (s1, s2) | x :: t => sums t (i + 1) (s1 + x) (s2 + i * x) end.
 Definition out_sum (p : rname * region) : bytes :=
   let '(s1, s2) := sums (r_data (snd p)) 1 0 0 in
-  rname_str (fst p) ++ [61] ++ out_N (blen (r_data (snd p))) ++ [46] ++ out_N s1 ++ [46] ++ out_N s2.
+  rname_str (fst p) ++ [61] ++ out_N (flen (r_data (snd p))) ++ [46] ++ out_N s1 ++ [46] ++ out_N s2.
 
 (* feed, recording after every chunk; stops at the first exception *)
 Fixpoint feed (i : istate) (cs : list bytes) (acc : list bytes) : istate * list bytes :=
